@@ -287,11 +287,14 @@ def make_session(spec):
     raise ValueError(k)
 
 
-def run_step(sess, name, cap, **kw):
-    """execute one step with the session's option vector applied; classify the outcome"""
+def run_step(sess, name, cap, apply=True, **kw):
+    """execute one step; classify the outcome.  With apply=True the session's whole option vector is written
+    into `settings` first (what a user does after somebody else used the process); consecutive steps of one
+    session run without re-applying, so an option that Polar itself changes during a step is seen by the next."""
     if sess.dead:
         return {"status": "skipped"}
-    seams.apply_options(sess.spec.get("options"))
+    if apply:
+        seams.apply_options(sess.spec.get("options"))
     old = signal.signal(signal.SIGALRM, _alarm)
     signal.setitimer(signal.ITIMER_REAL, cap)
     t0 = time.time()
